@@ -75,7 +75,7 @@ func sameFloat(a, b float64) bool { return math.Float64bits(a) == math.Float64bi
 
 // float64 values whose truncation toward zero is representable in the target type
 func fitsInt64(v float64) bool  { return v >= -0x1p63 && v < 0x1p63 }
-func fitsUint64(v float64) bool { return v > -1 && v < 0x1p64 }
+func fitsUint64(v float64) bool { return v >= 0 && v < 0x1p64 }
 
 func truncToInt64(v float64) int64   { return int64(v) }
 func truncToUint64(v float64) uint64 { return uint64(v) }
